@@ -96,10 +96,47 @@ def d_symbol_index(f, s, R, db):
     return None
 
 
+def _elem_ty(ty):
+    """Element type of a slice / array / Vec type string (None if not one of these)."""
+    ty = ty.strip()
+    for pre in ('&mut ', '&'):
+        if ty.startswith(pre):
+            ty = ty[len(pre):].strip()
+    if ty.startswith('[') and ty.endswith(']'):
+        inner = ty[1:-1]
+        depth = 0
+        for i, ch in enumerate(inner):
+            depth += ch in '<[('
+            depth -= ch in '>])'
+            if ch == ';' and depth == 0:
+                return inner[:i].strip()
+        return inner.strip()
+    for head in ('alloc::vec::Vec<', 'generic_array::GenericArray<'):
+        if ty.startswith(head) and ty.endswith('>'):
+            break
+    else:
+        head = None
+    if head:
+        inner = ty[len(head):-1]
+        depth = 0
+        for i, ch in enumerate(inner):
+            depth += ch in '<[('
+            depth -= ch in '>])'
+            if ch == ',' and depth == 0:
+                return inner[:i].strip()
+        return inner.strip()
+    return None
+
+
 def type_of(f, e):
     e = norm(e)
     if e[0] in ('v', 'p'):
         return f.local_ty(e[1])
+    if e[0] == 'idx':
+        bt = type_of(f, e[1])
+        et = _elem_ty(bt) if bt else None
+        if et:
+            return et
     # a matrix reached through Option::unwrap / as_mut / deref chains: type of the innermost local that mentions it
     for x in X.walk(e):
         if x[0] in ('v', 'p') and ('DenseMatrix<' in f.local_ty(x[1]) or 'GenericArray<' in f.local_ty(x[1])):
@@ -163,6 +200,104 @@ def generic_array_len(ty):
     if ty and 'GenericArray<' in ty:
         a = last_generic_arg(ty)
         return common.typenum(a) if a else None
+    return None
+
+
+def _nl(e):
+    """Normalise an index / length expression for the linear prover: `x.len()` calls become ('len', x); slices views are transparent."""
+    e = norm(e)
+    if not isinstance(e, tuple) or not e or not isinstance(e[0], str):
+        return e
+    if e[0] == 'call' and len(e[2]) == 1 and e[1].endswith(('::len',)) and not e[1].endswith(('StripedSequence::len', 'ScoringMatrix::len')):
+        return ('len', _nl(e[2][0]))
+    if e[0] == 'call' and len(e[2]) == 1 and e[1].endswith(('::as_slice', '::as_mut_slice', 'Vec::deref', 'Vec::deref_mut', 'AsRef::as_ref', 'Borrow::borrow')):
+        return _nl(e[2][0])
+    out = [e[0]]
+    for x in e[1:]:
+        if isinstance(x, tuple) and x and isinstance(x[0], str):
+            out.append(_nl(x))
+        elif isinstance(x, tuple):
+            out.append(tuple(_nl(y) if isinstance(y, tuple) else y for y in x))
+        else:
+            out.append(x)
+    return tuple(out)
+
+
+def d_linear_bounds(f, s, R, db):
+    """x[i] (bounds assert, or Index on a Vec / DenseMatrix) where  i < bound  follows by linear arithmetic (Fourier-Motzkin) from
+    the ranges of the loop variables in i (`0..n`, positions of `enumerate`), the definition of `min`, and the dominating comparisons."""
+    from lm import linprove as LP
+    t = s['term']
+    if s['kind'] == 'assert:bounds':
+        bound, idx = _nl(R.operand(t['ops'][0])), _nl(R.operand(t['ops'][1]))
+    elif s['kind'] == 'call:generic-index' and len(t['args']) == 2:
+        recv, idx = _nl(R.operand(t['args'][0])), _nl(R.operand(t['args'][1]))
+        ty = type_of(f, norm(R.operand(t['args'][0]))) or ''
+        if idx[0] == 'agg':
+            return None          # range indexing is handled elsewhere
+        if 'DenseMatrix<' in ty:
+            bound = ('call', 'lightmotif::dense::DenseMatrix::rows', (recv,))
+        elif ty.startswith(('alloc::vec::Vec<', '&alloc::vec::Vec<', '&mut alloc::vec::Vec<', '[', '&[', '&mut [')) and 'Range' not in ty:
+            bound = ('len', recv)
+        else:
+            return None
+    else:
+        return None
+    hyps = []
+
+    def add_le(a, b, strict=False):           # a <= b  (or a < b)
+        h = LP.lin_sub(X.lin(b), X.lin(a))
+        hyps.append(LP.lin_addc(h, -1) if strict else h)
+    seen = set()
+    for e in (idx, bound):
+        for x in X.walk(e):
+            if x in seen:
+                continue
+            seen.add(x)
+            if x[0] == 'elem' and x[1][0] == 'agg' and isinstance(x[1][1], tuple) and x[1][1][1].endswith('ops::range::Range') and len(x[1][2]) == 2:
+                lo, hi = x[1][2]
+                add_le(lo, x)
+                add_le(x, hi, strict=True)
+            mm = m(('fld', ('elem', ('call~', 'Iterator::enumerate', ('$it',)), '$L'), '0'), x)
+            if mm is not None:
+                it = mm['$it']
+                while it[0] == 'call' and len(it[2]) == 1 and it[1].endswith(('::iter', '::iter_mut', 'into_iter')):
+                    it = it[2][0]
+                add_le(('k', 0), x)
+                add_le(x, ('len', it), strict=True)
+            if x[0] == 'call' and x[1].endswith(('Ord::min', 'cmp::min')) and len(x[2]) == 2:
+                add_le(x, x[2][0])
+                add_le(x, x[2][1])
+            if x[0] == 'len' or (x[0] == 'call' and x[1].endswith('DenseMatrix::rows')):
+                add_le(('k', 0), x)
+    for r in G.relations(f, R, s['block']):
+        if r[0] not in ('eq', 'lt', 'le', 'gt', 'ge') or len(r) < 3:
+            continue
+        a, b = _nl(r[1]), _nl(r[2])
+        if r[0] == 'eq':
+            add_le(a, b); add_le(b, a)
+        elif r[0] == 'lt':
+            add_le(a, b, strict=True)
+        elif r[0] == 'le':
+            add_le(a, b)
+        elif r[0] == 'gt':
+            add_le(b, a, strict=True)
+        elif r[0] == 'ge':
+            add_le(b, a)
+    # single-definition locals in the bound that were created with a known size: DenseMatrix::new(n) has n rows
+    for x in X.walk(bound):
+        if x[0] == 'call' and x[1].endswith('DenseMatrix::rows') and x[2][0][0] == 'v':
+            ds = f.defs().get(x[2][0][1], [])
+            if len(ds) == 1 and ds[0][1] == 'term':
+                de = _nl(R.call(ds[0][2]))
+                if de[0] == 'call' and de[1].endswith('DenseMatrix::new') and len(de[2]) == 1:
+                    add_le(de[2][0], x); add_le(x, de[2][0])
+    goal = LP.lin_addc(LP.lin_sub(X.lin(bound), X.lin(idx)), -1)      # bound - idx - 1 >= 0
+    try:
+        if LP.entails(hyps, goal):
+            return f'linear bounds: {X.show(idx, 40)} < {X.show(bound, 50)} entailed by the loop ranges and dominating comparisons (Fourier-Motzkin)'
+    except Exception:
+        return None
     return None
 
 
@@ -543,7 +678,7 @@ def d_wrapper_summary(f, s, R, db):
     return None
 
 
-RULES = [d_const_div, d_symbol_index, d_enumerate_of_same, d_const_index, d_nonempty_param, d_guarded_unwrap, d_table_agreement, d_parse_line,
+RULES = [d_const_div, d_symbol_index, d_enumerate_of_same, d_linear_bounds, d_const_index, d_nonempty_param, d_guarded_unwrap, d_table_agreement, d_parse_line,
          d_wrapper_summary]
 RULES_CTX = [d_no_incomplete, d_offset_sites, d_transfac_last]
 
